@@ -50,7 +50,7 @@ Section First.
   Hypothesis Hne : name <> [].
   Hypothesis Hc : forallb namec name = true.
   Hypothesis Hd : eqc (peek name) 36 = false.
-  Hypothesis Ha : match q with None => True | Some a => forallb mac (arch_string a) = true /\ parse_arch (arch_string a) = a end.
+  Hypothesis Ha : match q with None => True | Some a => forallb mac (arch_string a) = true /\ parse_arch (arch_string a) = a /\ arch_ok (arch_string a) = true end.
   Hypothesis W : clauses_ok (base name q) cl.
   Hypothesis NE : cl <> [].
   Hypothesis Hempty : p_archs (result name q cl) = Some {| a_not := false; a_list := [] |}.
